@@ -72,6 +72,7 @@ type verifC04Kid struct {
 	typeLabels bool // revisions only: the apiGroup/resource labels are right
 	match      bool // the labels satisfy the parent's selector
 	canary     bool // carries track=canary, which a selector with the NotIn expression excludes
+	plainOurs  bool // foreign-controlled object that also lists our parent with an explicit controller:false, first
 	foreignUID string
 	deleting   bool
 	live       int
@@ -100,6 +101,13 @@ func verifC04DrawKid(i int, full bool, revision bool, selVal string, cachedDelet
 		k.labVal = rt.String("label" + n)
 		k.foreignUID = rt.String("foreign-uid" + n)
 		rt.Assume(k.foreignUID != "puid")
+		if full {
+			// the object may ALSO list our parent as a plain owner, written out as
+			// `controller: false` and placed first: that is not a controller reference
+			if k.plainOurs = rt.Bool("also-lists-the-parent-with-controller-false" + n); k.plainOurs {
+				rt.Cover("foreign/lists-parent-as-plain-owner")
+			}
+		}
 		return k
 	}
 	if full {
@@ -154,6 +162,9 @@ func verifC04DrawKid(i int, full bool, revision bool, selVal string, cachedDelet
 func verifC04Refs(k *verifC04Kid, withOurs, withRival bool) []metav1.OwnerReference {
 	t, f := true, false
 	var out []metav1.OwnerReference
+	if k.plainOurs {
+		out = append(out, metav1.OwnerReference{APIVersion: "ex.com/v1", Kind: "Thing", Name: "p", UID: "puid", Controller: &f})
+	}
 	if k.extra {
 		out = append(out, metav1.OwnerReference{APIVersion: "v1", Kind: "Other", Name: "x", UID: "xuid"})
 	}
@@ -949,7 +960,22 @@ func VerifC04_LabelInvariant() {
 	case 0:
 		parent.Object["spec"] = map[string]interface{}{"selector": map[string]interface{}{"matchLabels": map[string]interface{}{"app": selVal}}}
 	case 2:
-		parent.Object["spec"] = map[string]interface{}{"selector": map[string]interface{}{}}
+		// every way of writing "no criteria at all": {}, null, and the two fields
+		// present but empty
+		var sel interface{}
+		switch verifC04Pick("empty-selector-shape", 5) {
+		case 0:
+			sel = map[string]interface{}{}
+		case 1:
+			sel = nil
+		case 2:
+			sel = map[string]interface{}{"matchLabels": map[string]interface{}{}}
+		case 3:
+			sel = map[string]interface{}{"matchExpressions": []interface{}{}}
+		default:
+			sel = map[string]interface{}{"matchLabels": map[string]interface{}{}, "matchExpressions": []interface{}{}}
+		}
+		parent.Object["spec"] = map[string]interface{}{"selector": sel}
 	}
 	w.Srv.Put("things", parent)
 
